@@ -381,7 +381,9 @@ pub const MEMBERS: [&[u8]; 7] = [b"m", b"n", b"", b"\xc3\xa9", b"10", b"a b", b"
 pub const FIELDS: [&[u8]; 5] = [b"f", b"g", b"", b"\xc3\xa9", b"n"];
 
 /// hot = error-provoking mode (C17): keys drawn uniformly (type conflicts), extreme integers and indices more often
-pub struct Gen<'a> { pub rng: &'a mut Rng, pub now: u64, pub deadlines: Vec<u64>, pub lens: Vec<i64>, pub hot: bool }
+pub struct Gen<'a> { pub rng: &'a mut Rng, pub now: u64, pub deadlines: Vec<u64>, pub lens: Vec<i64>, pub hot: bool,
+                     /// the visible keyspace after the last step (state-aware scenarios) and commands queued by a scenario
+                     pub state: Snapshot, pub pending: Vec<MCmd> }
 
 impl<'a> Gen<'a> {
     pub fn pick<T: Clone>(&mut self, l: &[T]) -> T { l[self.rng.gen_range(0..l.len())].clone() }
@@ -474,7 +476,98 @@ impl<'a> Gen<'a> {
         if self.chance(0.15) { self.rng.gen_range(0..4000) } else { self.pick(&c) }
     }
 
+    fn len_of(&self, k: &str) -> Option<i64> {
+        find(&self.state, k).and_then(|e| match &e.1 { Dump::L(v) => Some(v.len() as i64), Dump::S(v) => Some(v.len() as i64), Dump::Z(v) => Some(v.len() as i64),
+                                                        Dump::T(v) => Some(v.len() as i64), Dump::H(v) => Some(v.len() as i64), Dump::X(_) => None })
+    }
+    /// (start, stop) around the boundaries of a sequence of length len, with emphasis on "start normalises to 0,
+    /// stop lies before the head" and on the other empty / one-element ranges
+    pub fn edge_pair(&mut self, len: i64) -> (i64, i64) {
+        let l = len.max(1);
+        let starts = [0, -l, -l - 1, -l - 2, i64::MIN, 1, l - 1, l, l + 1, -1];
+        let stops = [-l - 1, -l - 2, -100, i64::MIN, -l, 0, -1, l - 1, l, l + 1, i64::MAX];
+        if self.chance(0.6) { (self.pick(&starts[..5]), self.pick(&stops[..4])) } else { (self.pick(&starts), self.pick(&stops)) }
+    }
+    /// commands that set up a keyspace holding every type, short collections, about half of the keys with a TTL
+    pub fn prelude(&mut self) -> Vec<MCmd> {
+        use MCmd::*;
+        let mut v = Vec::new();
+        let ttl = |g: &mut Gen, k: &str, v: &mut Vec<MCmd>| if g.chance(0.5) { let ms = g.pick(&[700i64, 1500, 2500, 5000]); v.push(PExpire(k.to_string(), ms, false, false, false, false)); };
+        if self.chance(0.8) { let x = if self.chance(0.5) { XOpt::Px(self.pick(&[900i64, 1500, 5000])) } else { XOpt::None }; v.push(Set("a".into(), self.val(), x, false, false, false)); }
+        if self.chance(0.6) { let x = if self.chance(0.5) { XOpt::Px(self.pick(&[900i64, 1500, 5000])) } else { XOpt::None }; v.push(Set("b".into(), self.val(), x, false, false, false)); }
+        if self.chance(0.8) { v.push(RPush("l".into(), self.vals(1, 3))); ttl(self, "l", &mut v); }
+        if self.chance(0.6) { v.push(SAdd("s".into(), self.members(1, 2))); ttl(self, "s", &mut v); }
+        if self.chance(0.6) { let n = self.rng.gen_range(1..=2); v.push(HSet("h".into(), (0..n).map(|_| (self.field(), self.val())).collect())); ttl(self, "h", &mut v); }
+        if self.chance(0.7) { let n = self.rng.gen_range(1..=3); v.push(ZAdd("z".into(), (0..n).map(|_| (self.score(), self.member())).collect(), false, false, false, false, false)); ttl(self, "z", &mut v); }
+        v
+    }
+    /// state-aware scenarios (TTL transfer by RENAME, boundary ranges on the real length, emptying a collection that
+    /// carries a TTL and re-creating the key); None when the current keyspace offers no candidate
+    fn scenario(&mut self) -> Option<MCmd> {
+        use MCmd::*;
+        let keys: Vec<(String, Dump, i64)> = self.state.iter().filter(|e| e.2 >= -1).cloned().collect();
+        if keys.is_empty() { return None; }
+        match self.rng.gen_range(0..10) {
+            // RENAME / RENAMENX between keys of different TTL status (all four combinations, destination-with-TTL favoured)
+            0..=2 => {
+                let with: Vec<&(String, Dump, i64)> = keys.iter().filter(|e| e.2 >= 0).collect();
+                let without: Vec<&(String, Dump, i64)> = keys.iter().filter(|e| e.2 == -1).collect();
+                let (src, dst) = match self.rng.gen_range(0..6) {
+                    0..=2 if !with.is_empty() && !without.is_empty() => (self.pick(&without).0.clone(), self.pick(&with).0.clone()),
+                    3 if !with.is_empty() && !without.is_empty() => (self.pick(&with).0.clone(), self.pick(&without).0.clone()),
+                    4 if with.len() >= 2 => (with[0].0.clone(), with[1].0.clone()),
+                    _ => (self.pick(&keys).0.clone(), self.pick(&KEYS).to_string()),
+                };
+                let probe = if self.chance(0.5) { Pttl(dst.clone()) } else { Ttl(dst.clone()) };
+                self.pending.push(probe);
+                Some(if self.chance(0.75) { Rename(src, dst) } else { RenameNx(src, dst) })
+            }
+            // boundary index pairs on the real length of a list / string / sorted set
+            3..=6 => {
+                let cands: Vec<&(String, Dump, i64)> = keys.iter().filter(|e| matches!(e.1, Dump::L(_) | Dump::S(_) | Dump::Z(_))).collect();
+                if cands.is_empty() { return None; }
+                let (k, d, _) = self.pick(&cands).clone();
+                let len = self.len_of(&k).unwrap_or(1);
+                let (a, b) = self.edge_pair(len);
+                Some(match d {
+                    Dump::L(_) => match self.rng.gen_range(0..8) { 0..=3 => LTrim(k, a, b), 4..=5 => LRange(k, a, b), 6 => LIndex(k, b), _ => LSet(k, b, self.val()) },
+                    Dump::S(_) => GetRange(k, a, b),
+                    _ => if self.chance(0.5) { ZRange(k, a, b, self.chance(0.5)) } else { ZRevRange(k, a, b, self.chance(0.5)) },
+                })
+            }
+            // empty a collection (preferably one with a TTL), look at it, re-create it: the TTL must not come back
+            _ => {
+                let mut cands: Vec<&(String, Dump, i64)> = keys.iter().filter(|e| matches!(e.1, Dump::L(_) | Dump::T(_) | Dump::H(_) | Dump::Z(_)) && e.2 >= 0).collect();
+                if cands.is_empty() || self.chance(0.2) { cands = keys.iter().filter(|e| matches!(e.1, Dump::L(_) | Dump::T(_) | Dump::H(_) | Dump::Z(_))).collect(); }
+                if cands.is_empty() { return None; }
+                let (k, d, _) = self.pick(&cands).clone();
+                let (kill, recreate) = match d {
+                    Dump::L(v) => { let len = v.len() as i64;
+                        let kill = if len == 1 && self.chance(0.4) { if self.chance(0.5) { LPop(k.clone()) } else { RPop(k.clone()) } }
+                                   else { let (a, b) = self.pick(&[(0, -len - 1), (0, -100), (-100, -100), (0, i64::MIN), (len, -1), (1, 0), (-len - 2, -len - 1)]); LTrim(k.clone(), a, b) };
+                        (kill, RPush(k.clone(), self.vals(1, 2))) }
+                    Dump::T(v) => (SRem(k.clone(), v.clone()), SAdd(k.clone(), self.members(1, 2))),
+                    Dump::H(v) => (HDel(k.clone(), v.iter().map(|p| p.0.clone()).collect()), HSet(k.clone(), vec![(self.field(), self.val())])),
+                    Dump::Z(v) => (ZRem(k.clone(), v.iter().map(|p| p.0.clone()).collect()), ZAdd(k.clone(), vec![(self.score(), self.member())], false, false, false, false, false)),
+                    _ => return None,
+                };
+                // queued in reverse order (pending is popped from the back)
+                self.pending.push(Pttl(k.clone()));
+                self.pending.push(recreate);
+                let probe = if self.chance(0.5) { Pttl(k.clone()) } else { Exists(vec![k.clone()]) };
+                self.pending.push(probe);
+                self.pending.push(TypeOf(k.clone()));
+                Some(kill)
+            }
+        }
+    }
     pub fn cmd(&mut self) -> MCmd {
+        if let Some(c) = self.pending.pop() { return c; }
+        if self.chance(0.22) { if let Some(c) = self.scenario() { return c; } }
+        self.cmd_random()
+    }
+
+    fn cmd_random(&mut self) -> MCmd {
         use MCmd::*;
         let st = ["a", "b"]; let li = ["l", "b"]; let se = ["s"]; let ha = ["h"]; let zs = ["z"]; let any = KEYS;
         match self.rng.gen_range(0..100) {
@@ -687,6 +780,25 @@ pub fn laws(c: &MCmd, r: &RespValue, before: &Snapshot, after: &Snapshot, now: u
                     out.push(f("expire-semantics", format!("{} {:?} (deadline {} at clock {}, flags nx/xx/gt/lt {:?}) on a key with PTTL {:?}: reply {:?}, PTTL after {:?}; Redis: reply {}, PTTL after {:?}",
                         c.name(), k, when, now, flags, pttl_before(k), r, pttl_after(k), wr, wp))); }
             }
+        }
+        Rename(a, b) | RenameNx(a, b) => {
+            let moved = match c { Rename(..) => kind.is_none(), _ => *r == RespValue::Integer(1) };
+            if moved && a != b {
+                let src = find(before, a);
+                let ok = src.is_some() && find(after, a).is_none() && find(after, b).map(|e| (&e.1, e.2)) == src.map(|e| (&e.1, e.2));
+                if !ok { out.push(f("rename-carries-source-ttl", format!("{} {:?} {:?}: the destination must end up with exactly the source's value and TTL (source before: {:?}; destination before: {:?}; destination after: {:?}; source after: {:?})",
+                    c.name(), a, b, src.map(|e| (dump_text(&e.1), e.2)), find(before, b).map(|e| (dump_text(&e.1), e.2)), find(after, b).map(|e| (dump_text(&e.1), e.2)), find(after, a).map(|e| e.2)))); }
+            }
+        }
+        LTrim(k, a, b) => if let Some((_, Dump::L(v), p)) = find(before, k) {
+            // Redis: start/stop from the end when negative, start clamped at 0, stop clamped at len-1; empty range => the key is deleted
+            let len = v.len() as i128; let (mut s, mut e) = (*a as i128, *b as i128);
+            if s < 0 { s += len; } if e < 0 { e += len; } if s < 0 { s = 0; }
+            let want: Vec<Vec<u8>> = if s > e || s >= len { vec![] } else { let e = e.min(len - 1); v[s as usize..=e as usize].to_vec() };
+            let got = find(after, k);
+            let ok = if want.is_empty() { got.is_none() } else { matches!(got, Some((_, Dump::L(w), q)) if *w == want && q == p) };
+            if !ok { out.push(f("ltrim-range", format!("LTRIM {:?} {} {} on {} (PTTL {}): Redis keeps {} element(s){}; the implementation left {:?}",
+                k, a, b, dump_text(&Dump::L(v.clone())), p, want.len(), if want.is_empty() { " and deletes the key" } else { " and the TTL" }, got.map(|e| (dump_text(&e.1), e.2))))); }
         }
         ZAdd(_, _, nx, xx, gt, lt, _) => if ((*nx && *xx) || (*gt && *lt) || (*nx && (*gt || *lt))) && kind != Some("ESyntax") {
             out.push(f("zadd-contradictory-flags-accepted", format!("ZADD with the flag set nx={} xx={} gt={} lt={} replied {:?}; Redis refuses it (XX and NX / GT, LT, and/or NX options at the same time are not compatible)", nx, xx, gt, lt, r))); }
